@@ -1,7 +1,7 @@
 (* C24 — Shift-DFA scanners agree with the lexer tables they pack.
    Models: Lex/Tables.v (lex.Tables.Scan), Lex/ShiftDfa.v (shiftdfa.Pack, Scanner.Scan on 64-bit rows). *)
 From Coq Require Import List ZArith NArith Bool.
-From TM Require Import Lex.Tables Lex.ShiftDfa Lex.ShiftDfa_proofs.
+From TM Require Import Lex.Tables Lex.ShiftDfa Lex.ShiftDfa_proofs Lex.ShiftDfa_proofs2.
 Import ListNotations.
 Local Open Scope Z_scope.
 
@@ -19,6 +19,42 @@ Theorem C24_fields_read_back :
   forall k j, (j < k)%nat -> N.land (N.shiftr (rowk f k) (6 * N.of_nat j)) 63 = f j.
 Proof. exact rowk_field. Qed.
 
+(* ---------- the layers of that proof, each for all accepted table sets ---------- *)
+
+(* Pack accepts exactly when its conditions hold: at most 10 states, no backtracking, the single start state 0,
+   the last symbol class starts at or below 0x80, every cell encodes into 6 bits (fewer than 32 actions), no
+   shift on end of input; and then the scanner is the row/onEoi table of the model. *)
+Theorem C24_pack_accepts_iff_conditions : forall t s, pack t = PackOk s <-> packed t s.
+Proof. exact pack_ok_iff. Qed.
+
+(* decode (pack row) = row, for every byte, every state < 10 and hence every 6-bit position of the 64-bit
+   row: the field is 2*action+1 for an accepting/error transition and 6*target (< 60) for a shift. *)
+Theorem C24_packed_field_is_transition :
+  forall t s, wf24b t = true -> pack t = PackOk s ->
+  forall b (st : nat), 0 <= b < 256 -> Z.of_nat st < num_states t ->
+  let c := cell t st (lookup_sym (symbol_map t) b) in
+  let fld := Z.of_N (N.land (N.shiftr (nth (Z.to_nat b) (sc_table s) 0%N) (6 * N.of_nat st)) 63) in
+  (c < 0 -> fld = (-1 - c) * 2 + 1) /\ (0 <= c -> fld = c * 6 /\ c < num_states t).
+Proof. exact packed_field_is_transition. Qed.
+
+(* the onEoi array holds the action every state takes at the end of input *)
+Theorem C24_packed_eoi_is_action :
+  forall t s, wf24b t = true -> pack t = PackOk s ->
+  forall (st : nat), Z.of_nat st < num_states t ->
+  cell t st 0 < 0 /\ Z.of_N (nth st (sc_on_eoi s) 0%N) = -1 - cell t st 0.
+Proof. exact packed_eoi_is_action. Qed.
+
+(* step-by-step simulation: from ANY automaton state (the packed scanner holding a shifted row whose low six
+   bits are 6*state) and any offset, both loops return the same size and token on every byte string *)
+Theorem C24_scan_loops_simulate :
+  forall t s, wf24b t = true -> pack t = PackOk s ->
+  forall text (lst : nat) state i f,
+  (length text < f)%nat -> Z.of_nat lst < num_states t ->
+  N.land state 63 = (6 * N.of_nat lst)%N -> Forall (fun b => 0 <= b < 256) text ->
+  shift_loop s state i text =
+  (fst (scan_loop f t (Z.of_nat lst) i 0 0 text), Z.to_N (snd (scan_loop f t (Z.of_nat lst) i 0 0 text))).
+Proof. exact scan_loops_simulate. Qed.
+
 (* tables of the single rule /a/ => 1 as lex.Compile produces them *)
 Definition ex_tables : tables :=
   mkTables true [(0, 1); (97, 2); (98, 1)] 3 [0] [-1; -1; 1; -2; -2; -2] [].
@@ -32,6 +68,24 @@ Example C24_example_hypotheses_met :
   end.
 Proof. vm_compute. split; reflexivity. Qed.
 
+(* a three-state automaton for /ab/ => 1, /a/ => 2 (symbols: 0 EOI, 1 other, 2 'a', 3 'b'): the packed row of
+   'b' is action 0 in state 0 (field 1), shift to state 2 in state 1 (field 12), action 1 in state 2
+   (field 3): 1 + 12*2^6 + 3*2^12; onEoi = actions 0, 2, 1 *)
+Definition ex_tables2 : tables :=
+  mkTables true [(0, 1); (97, 2); (98, 3); (99, 1)] 4 [0] [-1; -1; 1; -1;  -3; -3; -3; 2;  -2; -2; -2; -2] [].
+
+Example C24_example_packed_table :
+  wf24b ex_tables2 = true /\
+  match pack ex_tables2 with
+  | PackOk s =>
+      nth 98 (sc_table s) 0%N = 13057%N /\ nth 97 (sc_table s) 0%N = (6 + 5 * 64 + 3 * 4096)%N /\
+      firstn 3 (sc_on_eoi s) = [0; 2; 1]%N /\
+      map (shift_scan s) [[97; 98; 97]; [97; 97]; [97]; [98]; []] = [(2, 1%N); (1, 2%N); (1, 2%N); (0, 0%N); (0, 0%N)] /\
+      map (scan ex_tables2 0) [[97; 98; 97]; [97; 97]; [97]; [98]; []] = [(2, 1); (1, 2); (1, 2); (0, 0); (0, 0)]
+  | PackErr _ => False
+  end.
+Proof. vm_compute. repeat split; reflexivity. Qed.
+
 (* the pre-fix guard (last class may start above 0x80) is refused by the model's Pack: error 4 *)
 Example C24_split_high_bytes_refused :
   pack (mkTables true [(0, 1); (128, 2); (192, 1)] 3 [0] [-1; -1; 1; -4; -4; -4] []) = PackErr 4.
@@ -39,3 +93,7 @@ Proof. vm_compute. reflexivity. Qed.
 
 Print Assumptions C24_pack_scan_agrees.
 Print Assumptions C24_fields_read_back.
+Print Assumptions C24_pack_accepts_iff_conditions.
+Print Assumptions C24_packed_field_is_transition.
+Print Assumptions C24_packed_eoi_is_action.
+Print Assumptions C24_scan_loops_simulate.
